@@ -186,6 +186,9 @@ class Interp(object):
 
     def op_run(self, op):
         prog, flags = FR.apply_faults(op['prog'], op['faults'])
+        # generator precondition (as in C01): an input is a function of its alias and captured arguments - two calls
+        # with the same key behave alike, also after a fault was placed on one of them
+        prog = PS.assign_sids(PS.normalise_inputs(prog))
         if op.get('params'):
             prog['params'] = op['params']
         self.cas.fail_save = bool(flags.get('save_fails'))
